@@ -1,5 +1,5 @@
-"""Translator specs for pydrex.tensors (every kernel except polar_decompose, which is
-LAPACK glue and is modelled by hand over an SVD oracle in Model_decomp.v)."""
+"""Translator specs for pydrex.tensors (every numeric kernel; polar_decompose, which is LAPACK glue,
+is traced over an SVD oracle by specs_tensors_glue.py)."""
 from symtrace import Spec, Translation
 
 
